@@ -1100,9 +1100,19 @@ def remap_by_types(
                     raise ValueError(f"Index {index} out of range for {ast.dump(node.value)}")
                 self._found_types[node] = self.lookup_type(t_node.value.elts[index])
                 self._found_types[t_node] = self.lookup_type(t_node.value.elts[index])
-            elif (dc := self.lookup_type(t_node.value)) is not None and (
-                dc_types := _dataclass_field_types(dc)
-            ) is not None:
+            elif (
+                (dc := self.lookup_type(t_node.value)) is not None
+                and (dc_types := _dataclass_field_types(dc)) is not None
+                # (a dataclass that is a sequence as well - `class Group(Iterable[Jet])` - is
+                # indexed by position like any other sequence, its fields go by name)
+                and not (
+                    is_iterable(dc)
+                    and not (
+                        isinstance(t_node.slice, ast.Constant)
+                        and isinstance(t_node.slice.value, str)
+                    )
+                )
+            ):
                 if isinstance(t_node.slice, ast.Constant):
                     _slice = t_node.slice.value
                     if _slice not in dc_types:
@@ -1178,6 +1188,11 @@ def remap_by_types(
                 elif not (
                     callable(getattr(dc, node.attr, None))
                     or isinstance(getattr(dc, node.attr, None), property)
+                    # (a dataclass that is a sequence as well has the sequence operators)
+                    or (
+                        is_iterable(dc)
+                        and any(hasattr(c, node.attr) for c in _g_collection_classes)
+                    )
                 ):
                     raise ValueError(f"Key {node.attr} not found in dataclass/dictionary {dc}")
                 # (a method or a property - `j.attr[p](...)` - of a dataclass is not one of its
